@@ -24,13 +24,16 @@ type c13Op struct {
 }
 
 func (o c13Op) String() string {
+	if o.Kind == "clock61" {
+		return "clock61"
+	}
 	if o.Kind == "callback" {
 		return "callback(" + o.State + "," + o.Code + ")"
 	}
 	return o.Kind
 }
 
-var c13Codes = []string{"ok:preferred_username", "ok:unique_name", "ok:upn", "ok:username", "refuse", "noidtoken", "badsig", "wrongiss", "wrongaud", "expired", "nouser"}
+var c13Codes = []string{"ok:preferred_username", "ok:unique_name", "ok:upn", "ok:username", "refuse", "noidtoken", "badsig", "wrongiss", "wrongaud", "expired", "nouser", "idp500", "idpdown", "idpgarbage"}
 
 func c13Alphabet() []c13Op {
 	ops := []c13Op{{Kind: "connectA"}, {Kind: "connectB"}, {Kind: "clock"}}
@@ -69,6 +72,9 @@ func c13Script(idp *IdP) {
 		idp.Codes["ok:"+k] = CodeBehaviour{AccessToken: "at-user-" + k, IDToken: mk("ok:"+k, func(m map[string]any) { m[k] = "user-" + k }, false)}
 	}
 	idp.Codes["refuse"] = CodeBehaviour{Refuse: true}
+	idp.Codes["idp500"] = CodeBehaviour{Fault: "500"}
+	idp.Codes["idpdown"] = CodeBehaviour{Fault: "transport"}
+	idp.Codes["idpgarbage"] = CodeBehaviour{Fault: "garbage"}
 	idp.Codes["noidtoken"] = CodeBehaviour{NoIDToken: true, AccessToken: "at-x"}
 	idp.Codes["badsig"] = CodeBehaviour{AccessToken: "at-x", IDToken: mk("badsig", func(m map[string]any) { m["preferred_username"] = "mallory" }, true)}
 	idp.Codes["wrongiss"] = CodeBehaviour{AccessToken: "at-x", IDToken: mk("wrongiss", func(m map[string]any) { m["preferred_username"] = "mallory"; m["iss"] = "https://evil.example" }, false)}
@@ -134,6 +140,9 @@ func c13Run(store string, hist []c13Op, rep *Report) (viol, detail string, trace
 		case "clock":
 			vclock.Advance(121 * time.Second)
 			trace = append(trace, "clock+121s")
+		case "clock61":
+			vclock.Advance(61 * time.Second)
+			trace = append(trace, "clock+61s")
 		case "callback":
 			var st issued
 			have := true
@@ -152,13 +161,15 @@ func c13Run(store string, hist []c13Op, rep *Report) (viol, detail string, trace
 				st, have = pick(ownB, true)
 			case "stale":
 				st, have = pick(ownA, false)
+			case "stale-other":
+				st, have = pick(ownB, false)
 			case "never":
 				st = issued{state: "00112233445566778899aabbccddeeff"}
 			}
 			if !have {
 				st = issued{state: "ffffffffffffffffffffffffffffffff"} // nothing suitable issued yet: use a never-issued value
 			}
-			valid := have && op.State != "never" && op.State != "stale" && strings.HasPrefix(op.Code, "ok:")
+			valid := have && op.State != "never" && op.State != "stale" && op.State != "stale-other" && strings.HasPrefix(op.Code, "ok:")
 			rec := A.Do(app, "GET", "/callback?state="+st.state+"&code="+op.Code)
 			if rec.Code == 599 {
 				return "panic", rec.Body.String(), trace
@@ -192,8 +203,8 @@ func c13Run(store string, hist []c13Op, rep *Report) (viol, detail string, trace
 
 func c13(env *Env, rep *Report) {
 	alpha := c13Alphabet()
-	rep.Rule = fmt.Sprintf("(1) every browser history up to depth d over a %d-operation alphabet {GET /connect from browser A, from browser B, clock +121 s, GET /callback in browser A with state in {issued to A, issued to B, never issued, issued before the last clock jump} x code behaviour in {valid ID token carrying the user name under preferred_username / unique_name / upn / username, IdP refuses the code, no id_token, signature by another key, wrong issuer, wrong audience, expired, no user-name claim}} against the real router pieces (EnrichContext, Authenticated, HandleCallback, HandleDownload) with a scripted IdP, for the cookie store (quick d=3) and the file store (quick d=2; thorough 4 and 3); after every step both browsers are observed and compared with the reference (authenticated iff some callback passed every check with a state issued <= 120 s ago; user == claim). "+
-		"(5) the same callbacks against the real rdpgw binary (main()'s provider, verifier and oauth2 wiring) with a loopback IdP: {state issued to this browser, to another browser, never issued} x the 11 code behaviours, both session stores; thorough adds a state that is 125 s old in real time. (2) every single-character substitution and truncation of a valid authenticated session cookie, a cookie of an instance with other keys, and (file store) a valid cookie whose file was deleted never observe an authenticated session. (3) identity contents {user names incl. e-mail, non-ASCII, 300 characters} x X-Forwarded-For chains {none,1,3} x access tokens up to 3 KiB are restored field by field on the next request. (4) two browsers logging in concurrently, the session store wrapped so that entering Save is a scheduling point: every schedule up to preemption bound 2, both stores; each browser's session must restore its own identity. distinct_nontrivial = histories + cookies + identities + schedules evaluated.", len(alpha))
+	rep.Rule = fmt.Sprintf("(1) every browser history up to depth d over a %d-operation alphabet {GET /connect from browser A, from browser B, clock +121 s, GET /callback in browser A with state in {issued to A, issued to B, never issued, issued before the last clock jump} x code behaviour in {valid ID token carrying the user name under preferred_username / unique_name / upn / username, IdP refuses the code, no id_token, signature by another key, wrong issuer, wrong audience, expired, no user-name claim, token endpoint answering 500 / dropping the connection / answering garbage}} against the real router pieces (EnrichContext, Authenticated, HandleCallback, HandleDownload) with a scripted IdP, for the cookie store (quick d=3) and the file store (quick d=2; thorough 4 and 3); after every step both browsers are observed and compared with the reference (authenticated iff some callback passed every check with a state issued <= 120 s ago; user == claim). "+
+		"(5) the same callbacks against the real rdpgw binary (main()'s provider, verifier and oauth2 wiring) with a loopback IdP: {state issued to this browser, to another browser, never issued} x the 14 code behaviours, both session stores; thorough adds a state that is 125 s old in real time. (2) every single-character substitution and truncation of a valid authenticated session cookie, a cookie of an instance with other keys, and (file store) a valid cookie whose file was deleted never observe an authenticated session. (3) identity contents {user names incl. e-mail, non-ASCII, 300 characters} x X-Forwarded-For chains {none,1,3} x access tokens up to 3 KiB are restored field by field on the next request. (4) two browsers logging in concurrently, the session store wrapped so that entering Save is a scheduling point: every schedule up to preemption bound 2, both stores; each browser's session must restore its own identity. distinct_nontrivial = histories + cookies + identities + schedules evaluated.", len(alpha))
 	rep.Assumptions = append(rep.Assumptions, "the state store's clock is the harness clock (go-cache copy); the session cookie's own 120 s lifetime is enforced by securecookie against real time and is not advanced",
 		"a state value issued to another browser or used twice is not excluded by the property and is treated as issued")
 	if env.Replay != nil && env.Replay["concurrent"] != nil {
@@ -283,6 +294,41 @@ func c13(env *Env, rep *Report) {
 	}
 	for d := 1; d <= df; d++ {
 		enum("file", d)
+	}
+	// directed histories of depth 5: a state is issued, a callback that fails in any way comes 61 s later, and
+	// another 61 s later (the state is now 122 s old) a callback that would otherwise be valid: nothing that
+	// happened in between may have given the state more time
+	for _, store := range []string{"cookie", "file"} {
+		for _, code := range c13Codes {
+			if strings.HasPrefix(code, "ok:") {
+				continue
+			}
+			for _, who := range []string{"own", "other"} {
+				n++
+				if !env.mine(n) {
+					continue
+				}
+				distinct++
+				first := "connectA"
+				if who == "other" {
+					first = "connectB"
+				}
+				hist := []c13Op{{Kind: first}, {Kind: "clock61"}, {Kind: "callback", State: who, Code: code}, {Kind: "clock61"}, {Kind: "callback", State: "stale", Code: "ok:preferred_username"}}
+				if who == "other" {
+					// the state was issued to browser B; browser A presents it
+					hist[4] = c13Op{Kind: "callback", State: "stale-other", Code: "ok:preferred_username"}
+				}
+				names := make([]string, len(hist))
+				for i, o := range hist {
+					names[i] = o.String()
+				}
+				v, d, tr := c13Run(store, hist, rep)
+				rep.outcome(store + " refresh-attempt " + v)
+				if v != "" {
+					rep.violate("C13/"+v+"/"+store+"/after-a-failed-callback", d, map[string]any{"noreplay": true, "history": names, "trace": tr})
+				}
+			}
+		}
 	}
 	rep.Bounds = map[string]any{"alphabet": len(alpha), "depth_cookie_store": dc, "depth_file_store": df}
 	distinct += c13Cookies(env, rep, &n)
